@@ -395,7 +395,7 @@ theorem update_passes_partial (os : Str) (orc : Oracle) (f : Str) (cs : List Cor
     | nil => exact All2.nil
     | @cons e e1 _ _ hx _ ih =>
       refine All2.cons ?_ ih
-      obtain ⟨c, ⟨l, a, hl, ho, hc⟩, ⟨hd, _, hout⟩, hnc⟩ := hx
+      obtain ⟨c, ⟨l, a, hl, ho, hc⟩, ⟨hd, _, hcstf, sepf, hsepf, hnorm, _⟩, hnc⟩ := hx
       have hkey := updateLang_skey {} e a
       rw [← hc] at hkey
       simp only [Entry.dkey, Correction.dkey, Prod.mk.injEq] at hd
@@ -406,7 +406,7 @@ theorem update_passes_partial (os : Str) (orc : Oracle) (f : Str) (cs : List Cor
       subst hl2
       have ha : a' = a := by rw [ho] at ho'; simpa using ho'.symm
       subst ha
-      obtain ⟨sepf, hsepf, hso, _⟩ := hout hnc
+      obtain ⟨hso, _⟩ := hnorm (hcstf hnc)
       obtain ⟨n, k, ts, hj, hbal⟩ := inFormatClass_spec hcls
       have hco : c.output = formatSexp {} (actualOf e a') := by
         rw [hc]; exact updateLang_output_pass {} e a' h1 h2 h3 h4
@@ -639,7 +639,8 @@ theorem updateEntry_second (fx : Fixes) (hk : fx.keepUnrun = true) (ho : fx.oneC
     (hcanon : e.attrs = flagsOf os e.name e.attrsStr) :
     updateEntry fx orc e1 = .cont [c] := by
   obtain ⟨l, hl⟩ := he.oneLang
-  obtain ⟨sepf, hsepf, hout, hhf⟩ := hb.2.2 hnc
+  obtain ⟨sepf, hsepf, hnorm, _⟩ := hb.2.2.2
+  obtain ⟨hout, hhf⟩ := hnorm (hb.2.2.1 hnc)
   have hattrs : e1.attrs = e.attrs := by
     have hs := (updateEntry_spec fx orc e [c] h1).1 c (by simp)
     simp only [Correction.skey, Entry.skey, Prod.mk.injEq] at hs
